@@ -53,6 +53,8 @@ class RefSer:
             return self.matches(self.defs[s.opt("name")], v)
         if k in ("ann", "newtype"):
             return self.matches(s.a[0], v)
+        if k == "sub":
+            return isinstance(v, self.prog.cls(s.opt("name")))
         if k == "none":
             return v is None
         if k == "bool":
@@ -111,7 +113,7 @@ class RefSer:
         k = s.k
         if k == "ref":
             return self.ser(self.defs[s.opt("name")], v)
-        if k in ("ann", "newtype"):
+        if k in ("ann", "newtype", "sub"):
             return self.ser(s.a[0], v)
         if k in ("int", "float", "str", "bool", "none"):
             return v
@@ -208,6 +210,8 @@ def json_only(x) -> bool:
     t = type(x)
     if x is None or t in (bool, int, float, str):
         return True
+    if isinstance(x, (int, float, str)):
+        return True  # instance of a subclass of a JSON primitive (class MyInt(int))
     if t is list:
         return all(json_only(v) for v in x)
     if t is dict:
